@@ -49,7 +49,10 @@ def prepare(tier):
                         q = (v[0] + 0.3 * (ca * dx - sa * dy), v[1] + 0.3 * (sa * dx + ca * dy))
                         if -90 <= q[1] <= 90:
                             around.add(a5.lonlat_to_cell(q, r))
-                clusters.append((f'f{f:02d}r{r:02d}', r, [tuple(v) for v in ring], [tuple(a5.cell_to_lonlat(y)) for y in sorted(around)]))
+                # the cell itself and two of its neighbours also enter the cluster as inverse-projection calls (ring and centre): whether
+                # the forward and the inverse code of one triangle have already run must not move a point that lies exactly on an edge
+                clusters.append((f'f{f:02d}r{r:02d}', r, [tuple(v) for v in ring], [tuple(a5.cell_to_lonlat(y)) for y in sorted(around)], 2,
+                                 [x] + [y for y in sorted(around) if y != x][:2]))
     # polar clusters: high-latitude points for which the neighbour search needs its second (tangent-plane) pass - found by counting, with
     # the schedule explorer's site counter, calls of the estimate helper that do not come from the first pass
     from vf import sched as _sched
@@ -366,6 +369,10 @@ def run(tier, t0):
             continue
         evs = [(f'tie:{tag}:b{i}', 'lonlat_to_cell', (bp, r), False) for i, bp in enumerate(bpts)]
         evs += [(f'tie:{tag}:c{i}', 'lonlat_to_cell', (cp, r), False) for i, cp in enumerate(centres)]
+        for i, cc in enumerate(cl[5] if len(cl) > 5 else []):
+            evs.append((f'tie:{tag}:ring{i}', 'cell_to_boundary', (cc, {'segments': 2}), False))
+            if i == 0:
+                evs.append((f'tie:{tag}:centre{i}', 'cell_to_lonlat', (cc,), False))
         cl_menus.append(evs)
     first = many(history.expand, [([], evs, None) for evs in cl_menus])
     for evs, (hh, outs, _) in zip(cl_menus, first):
